@@ -187,7 +187,9 @@ func newEnv(c *suiteCtx, cfg proxyCfg) (*testEnv, error) {
 	if cfg.CookieName != "" {
 		o.Cookie.Name = cfg.CookieName
 	}
-	if cfg.CookieExpire != 0 {
+	if cfg.CookieExpire < 0 {
+		o.Cookie.Expire = 0 // (-1: browser-session cookies, "never expires" on the server side)
+	} else if cfg.CookieExpire != 0 {
 		o.Cookie.Expire = cfg.CookieExpire
 	}
 	o.Cookie.Refresh = cfg.CookieRefresh
